@@ -7,9 +7,14 @@
   preservation proofs are in `Stab/Lemmas/Queue.lean` and `Queue2.lean`.
 
   `run (init m) ops` ranges over EVERY op sequence: pushes (plain / transactional with its own limit /
-  undeserialisable), split and atomic polls by any number of workers, ack / reschedule / extend by anyone
-  (also by workers that never held the row), expire / mature (abstract time), DLQ moves, sweeps, replays,
-  and a crash at any commit of any of these.
+  undeserialisable), split and atomic polls by any number of workers, ack / reschedule / extend by any worker
+  at any time (also long after its lock lapsed, with the Message object it still has), the same calls with a
+  hand-made Message (`rescheduleRaw` / `extendRaw`), expire / mature (abstract time), DLQ moves, sweeps,
+  replays, and a crash at any commit of any of these.
+
+  The model mirrors the code AFTER the repairs F13 (sweep also takes rows at the queue's limit) and F14 / F14b
+  (reschedule / extend_lock guarded by the claim token the Message got from poll_one; extend_lock refuses a
+  lapsed lock).  The old witnesses are kept below as regression examples.
 -/
 import Stab.Lemmas.Queue2
 
@@ -92,21 +97,22 @@ theorem second_claim_loses (m : Nat) (pre post : List Op) (w w' : Nat) (x x' : S
     exact absurd ⟨by omega, by omega⟩ (claim_exclusive m pre post w x r hx hr r' h1)
 
 /-
-  FULL STATEMENT (false, see the counterexamples below):
+  FULL STATEMENT over ALL op sequences, including `reschedule` / `extend_lock` called with a hand-made Message that
+  carries no claim token (`rescheduleRaw`, `extendRaw`):
     ∀ m ops i, (liveOn (run (init m) ops) i).length ≤ 1
-  i.e. "no two workers hold the same row at the same time" for EVERY op sequence.
-  What is proved: it holds for every op sequence in which `reschedule` and `extend` are only issued by a
-  worker whose lease on that row has not lapsed (`disciplinedRun`; `ack` is unrestricted, so are all
-  other ops, incl. crashes).  What is missing is exactly that side condition — the code does not enforce
-  it: `reschedule` / `extend_lock` are `UPDATE … WHERE id = :id` with no claim token.
+  is still false — for such a Message the code omits the guard (witness `…_counterexample_raw_message`).
+  PROVED (no timing assumption any more, no side condition on who calls what when): for every op sequence in which
+  reschedule / extend_lock are called with Messages handed out by poll_one — the only Messages the processor ever
+  has — at most one worker holds a row.  Before the F14 repair this needed "the caller's lock has not lapsed".
 -/
 
-/-- **One holder (partial).** Along a disciplined run: at most one live lease per row; a row with a live
-    lease is locked; and every pending SELECT result for it is stale. -/
-theorem no_claim_while_locked_partial (m : Nat) (ops : List Op) (ok : disciplinedRun (init m) ops = true) (i : Nat) :
+/-- **One holder.** For every op sequence of the poll → release protocol (any interleaving, any lapse, any crash):
+    at most one live lease per row; a row with a live lease is locked and carries the holder's claim version;
+    every pending SELECT result for it is stale; the poll's SELECT never returns it. -/
+theorem no_claim_while_locked (m : Nat) (ops : List Op) (ok : ∀ op ∈ ops, isRaw op = false) (i : Nat) :
     let s := run (init m) ops
     (liveOn s i).length ≤ 1 ∧
-    (∀ l ∈ liveOn s i, ∀ r ∈ s.rows, r.id = i → r.lock = .held) ∧
+    (∀ l ∈ liveOn s i, ∀ r ∈ s.rows, r.id = i → r.lock = .held ∧ r.version = l.ver) ∧
     (∀ l ∈ liveOn s i, ∀ w, ∀ x, selOf s w = some x → x.id = i → claimHits s w = none) ∧
     (∀ l ∈ liveOn s i, ∀ c, candidate s = some c → c.id ≠ i) := by
   intro s
@@ -128,11 +134,11 @@ theorem no_claim_while_locked_partial (m : Nat) (ops : List Op) (ok : discipline
   · intro l hl c hc e
     simp only [liveOn, List.mem_filter, Bool.and_eq_true, beq_iff_eq] at hl
     obtain ⟨hm, hel⟩ := candidate_mem hc
-    have := he.heldOfLive l hl.1 hl.2.1 c hm (by omega)
+    have := (he.heldOfLive l hl.1 hl.2.1 c hm (by omega)).1
     simp [eligible, this] at hel
 
-/-- a claim that succeeds in a disciplined run takes a row nobody holds -/
-theorem claim_takes_unheld_row (m : Nat) (ops : List Op) (ok : disciplinedRun (init m) ops = true)
+/-- a claim that succeeds takes a row nobody holds -/
+theorem claim_takes_unheld_row (m : Nat) (ops : List Op) (ok : ∀ op ∈ ops, isRaw op = false)
     (w : Nat) (r : Row) (h : claimHits (run (init m) ops) w = some r) :
     liveOn (run (init m) ops) r.id = [] := by
   cases hl : liveOn (run (init m) ops) r.id with
@@ -145,38 +151,53 @@ theorem claim_takes_unheld_row (m : Nat) (ops : List Op) (ok : disciplinedRun (i
     | some x =>
       simp only [hx] at h
       obtain ⟨_, h2, _⟩ := matched_mem h
-      have := (no_claim_while_locked_partial m ops ok r.id).2.2.1 l (by rw [hl]; simp) w x hx h2.symm
+      have := (no_claim_while_locked m ops ok r.id).2.2.1 l (by rw [hl]; simp) w x hx h2.symm
       simp [claimHits, hx, h] at this
 
-/-- F14 witness: A polls; its lock lapses; B polls and holds the row; A's (stale) `reschedule` clears
-    B's lock; C polls and gets the row while B still holds it. -/
+/-- a stale `reschedule` (caller's claim token is older than the row's version) changes no row -/
+theorem stale_reschedule_is_noop (s : State) (w i v : Nat) (d : Bool) (ht : tokOf s w i = some v)
+    (hs : ∀ r ∈ s.rows, r.id = i → r.version ≠ v) : (next s (.act (.reschedule w i d))).rows = s.rows := by
+  show (resched s w i d).rows = s.rows
+  simp only [resched, ht]
+  conv => rhs; rw [← List.map_id s.rows]
+  apply List.map_congr_left
+  intro r hr
+  by_cases h : r.id = i
+  · have := hs r hr h
+    simp [h, this]
+  · simp [h]
+
+/-- the F14 schedule (A polls; its lock lapses; B polls; A reschedules with its old Message; C polls) … -/
 def f14Ops : List Op :=
   [.act (.push false), .act (.poll 0), .act (.expire 1), .act (.poll 1),
    .act (.reschedule 0 1 false), .act (.poll 2)]
 
-/-- F14b witness: A's lock lapses; B SELECTs the row; A's heartbeat `extend_lock` revives A's lock
-    (no version bump); B's claim still matches the version and succeeds. -/
+/-- … and the F14b schedule (A's lock lapses; B SELECTs; A's heartbeat extends; B claims) -/
 def f14bOps : List Op :=
   [.act (.push false), .act (.poll 0), .act (.expire 1), .act (.pollSelect 1),
    .act (.extend 0 1), .act (.pollClaim 1)]
 
-/-- **The unrestricted statement is false** (model and code): two workers hold row 1 at once. -/
-theorem no_claim_while_locked_counterexample :
+-- regression: on the repaired code both schedules are harmless — C gets nothing, B stays the only holder;
+-- A's late heartbeat is refused (`extend_lock` returns False) and B's claim leaves A with a lapsed lease only
+example : outOf (run (init 3) (f14Ops.take 5)) (.act (.poll 2)) = .none
+    ∧ (liveOn (run (init 3) f14Ops) 1).map (·.w) = [1] := by decide
+example : outOf (run (init 3) (f14bOps.take 4)) (.act (.extend 0 1)) = .bool false
+    ∧ (liveOn (run (init 3) f14bOps) 1).map (·.w) = [1] := by decide
+
+/-- the same schedule with a hand-made Message (no claim token) in A's reschedule -/
+def f14RawOps : List Op :=
+  [.act (.push false), .act (.poll 0), .act (.expire 1), .act (.poll 1),
+   .act (.rescheduleRaw 1 false), .act (.poll 2)]
+
+/-- **The statement over ALL ops (token-less Messages included) is false**: the unguarded legacy path remains
+    for a Message that did not come from poll_one. -/
+theorem no_claim_while_locked_counterexample_raw_message :
     ¬ (∀ (m : Nat) (ops : List Op) (i : Nat), (liveOn (run (init m) ops) i).length ≤ 1) := by
   intro h
-  exact absurd (h 3 f14Ops 1) (by decide)
+  exact absurd (h 3 f14RawOps 1) (by decide)
 
-theorem no_claim_while_locked_counterexample_extend :
-    ¬ (∀ (m : Nat) (ops : List Op) (i : Nat), (liveOn (run (init m) ops) i).length ≤ 1) := by
-  intro h
-  exact absurd (h 3 f14bOps 1) (by decide)
-
--- the witnesses are not disciplined, and the last poll of F14 really hands the row out
-example : disciplinedRun (init 3) f14Ops = false ∧ disciplinedRun (init 3) f14bOps = false := by decide
-example : outOf (run (init 3) (f14Ops.take 5)) (.act (.poll 2)) = .got 1 0 3 := by decide
--- non-vacuity of the hypothesis: a disciplined run with two workers, a lapse and a re-claim
-example : disciplinedRun (init 3) [.act (.push false), .act (.poll 0), .act (.extend 0 1), .act (.expire 1),
-    .act (.poll 1), .act (.ack 0 1)] = true := by decide
+-- non-vacuity: a protocol run with two workers, a lapse, a re-claim and late calls by the first worker
+example : (∀ op ∈ f14Ops ++ f14bOps, isRaw op = false) ∧ isRaw (.act (.rescheduleRaw 1 false)) = true := by decide
 
 /-! ## attempt limit and dead-letter queue -/
 
@@ -200,13 +221,14 @@ theorem dlq_at_limit_never_claimed (m : Nat) (ops : List Op) (w : Nat) (r : Row)
     have := hb.selAtt x (selOf_mem hx).1 r h1 h2 h3
     omega
 
-/-- **Moved, not dropped.** The sweep removes exactly the rows with `attempts ≥ their max_attempts column`
-    and each of them is in the DLQ afterwards with the same payload; older DLQ entries stay. -/
+/-- **Moved, not dropped.** The sweep removes exactly the rows with `attempts ≥ their max_attempts column` or
+    `attempts ≥ the queue's max_attempts` (the limit `poll_one` filters on), and each of them is in the DLQ
+    afterwards with the same payload; older DLQ entries stay. -/
 theorem dlq_at_limit_sweep (m : Nat) (ops : List Op) :
     let s := run (init m) ops
     let s' := next s (.act .sweep)
-    s'.rows = s.rows.filter (fun r => decide (r.attempts < r.maxAtt)) ∧
-    (∀ r ∈ s.rows, r.attempts ≥ r.maxAtt →
+    s'.rows = s.rows.filter (fun r => decide (r.attempts < r.maxAtt ∧ r.attempts < s.maxAttempts)) ∧
+    (∀ r ∈ s.rows, (r.attempts ≥ r.maxAtt ∨ r.attempts ≥ s.maxAttempts) →
       ∃ d ∈ s'.dlq, d.tag = r.tag ∧ d.origId = r.id ∧ d.attempts = r.attempts ∧ d.bad = r.bad) ∧
     (∀ d ∈ s.dlq, d ∈ s'.dlq) := by
   intro s s'
@@ -218,9 +240,9 @@ theorem dlq_at_limit_sweep (m : Nat) (ops : List Op) :
     rw [h1]
     apply List.filter_congr
     intro r hr
-    have key : (sweepIds s).contains r.id = true ↔ r.attempts ≥ r.maxAtt := by
+    have key : (sweepIds s).contains r.id = true ↔ (r.attempts ≥ r.maxAtt ∨ r.attempts ≥ s.maxAttempts) := by
       rw [List.contains_iff_mem]
-      simp only [sweepIds, List.mem_map, List.mem_filter, decide_eq_true_eq]
+      simp only [sweepIds, List.mem_map, List.mem_filter, Bool.or_eq_true, decide_eq_true_eq]
       constructor
       · rintro ⟨r0, ⟨hr0, hge⟩, hid⟩
         have : r0 = r := hu r0 hr0 r hr hid
@@ -232,51 +254,44 @@ theorem dlq_at_limit_sweep (m : Nat) (ops : List Op) :
     omega
   · intro r hr hge
     apply h3 r hr
-    simp only [sweepIds, List.mem_map, List.mem_filter, decide_eq_true_eq]
+    simp only [sweepIds, List.mem_map, List.mem_filter, Bool.or_eq_true, decide_eq_true_eq]
     exact ⟨r, ⟨hr, hge⟩, rfl⟩
 
-/-- **F13 (stranded row).** If a row's attempts reached the QUEUE's limit (`poll_one` filters on it) but not
-    the ROW's own `max_attempts` column (`check_and_move_expired` filters on that) — which happens when
-    `SqliteQueue(max_attempts=q)` is combined with transaction-pushed or replayed rows (column 10) and
-    `q < 10` — then no sequence of polls, sweeps, pushes, replays, reschedules, extends, time steps or crashes
-    ever delivers it or moves it to the DLQ: it stays in the queue with the same attempt count until
-    someone deletes it by hand (explicit `ack` / `move_to_dlq` of that id). -/
-theorem stranded_between_limits (m : Nat) (pre post : List Op) (r : Row)
-    (hr : r ∈ (run (init m) pre).rows) (h1 : (run (init m) pre).maxAttempts ≤ r.attempts) (h2 : r.attempts < r.maxAtt)
-    (hk : ∀ op ∈ post, opKeeps r.id op = true) :
-    ∃ r' ∈ (run (run (init m) pre) post).rows, r'.id = r.id ∧ r'.attempts = r.attempts ∧
-      (∀ w, ∀ r'', claimHits (run (run (init m) pre) post) w = some r'' → r''.id ≠ r.id) ∧
-      (∀ c, candidate (run (run (init m) pre) post) = some c → c.id ≠ r.id) := by
-  have hb := base_run (base_init m) pre
-  have st : Stuck r.id r.attempts r.maxAtt (run (init m) pre) := ⟨hb, h1, h2, r, hr, rfl, rfl, rfl⟩
-  obtain ⟨hb', g1, g2, r', hr', hi, ha, hm⟩ := stuck_run st post hk
-  have hu := unique_of_pairwise (fun r : Row => r.id) _ hb'.idNodup
-  refine ⟨r', hr', hi, ha, ?_, ?_⟩
-  · intro w r'' hc e
-    simp only [claimHits] at hc
-    cases hx : selOf (run (run (init m) pre) post) w with
-    | none => simp [hx] at hc
-    | some x =>
-      simp only [hx] at hc
-      obtain ⟨q1, q2, q3⟩ := matched_mem hc
-      have : r'' = r' := hu r'' q1 r' hr' (by omega)
-      subst this
-      have := hb'.selAtt x (selOf_mem hx).1 r'' q1 q2 q3
+/-- **No row is stranded (F13 repaired).** In every reachable state each queue row is either below the queue's
+    limit — then it becomes eligible once its delay and lock lapse (`redeliverable`) — or at / above it — then the
+    next sweep moves it to the DLQ with its payload.  (Before the repair a row with
+    `queue.max_attempts ≤ attempts < its own max_attempts column` was neither.) -/
+theorem never_stranded (m : Nat) (ops : List Op) (r : Row) (hr : r ∈ (run (init m) ops).rows) :
+    let s := run (init m) ops
+    (r.attempts < s.maxAttempts ∧
+      ∃ r' ∈ (run s [.act (.mature r.id), .act (.expire r.id)]).rows, r'.id = r.id ∧ r'.tag = r.tag ∧
+        eligible s.maxAttempts r' = true) ∨
+    (s.maxAttempts ≤ r.attempts ∧ r ∉ (next s (.act .sweep)).rows ∧
+      ∃ d ∈ (next s (.act .sweep)).dlq, d.tag = r.tag ∧ d.origId = r.id ∧ d.attempts = r.attempts) := by
+  intro s
+  by_cases h : r.attempts < s.maxAttempts
+  · left
+    obtain ⟨r', hr', h1, h2, h3⟩ := eligible_after_mature_expire hr h
+    exact ⟨h, r', hr', h1, h2, h3⟩
+  · right
+    obtain ⟨h1, h2, _⟩ := dlq_at_limit_sweep m ops
+    have h' : ¬ r.attempts < (run (init m) ops).maxAttempts := h
+    refine ⟨Nat.le_of_not_lt h', ?_, ?_⟩
+    · intro hin
+      rw [h1] at hin
+      simp only [List.mem_filter, decide_eq_true_eq] at hin
       omega
-  · intro c hc e
-    obtain ⟨q1, q2⟩ := candidate_mem hc
-    have : c = r' := hu c q1 r' hr' (by omega)
-    subst this
-    simp [eligible] at q2
-    omega
+    · obtain ⟨d, hd, e1, e2, e3, _⟩ := h2 r hr (Or.inr (by omega))
+      exact ⟨d, hd, e1, e2, e3⟩
 
--- F13 is reachable: queue limit 1, a transaction-pushed row with its own limit 10, one failed attempt
+-- the F13 schedule: queue limit 1, a transaction-pushed row with its own limit 10, one failed attempt: the row is
+-- at the queue's limit but below its own …
 example : ∃ r ∈ (run (init 1) [.act (.pushTxn 10 false), .act (.poll 0), .act (.reschedule 0 1 false)]).rows,
     (run (init 1) [.act (.pushTxn 10 false), .act (.poll 0), .act (.reschedule 0 1 false)]).maxAttempts ≤ r.attempts
       ∧ r.attempts < r.maxAtt := by decide
--- and with equal limits the sweep does move the exhausted row
-example : (run (init 1) [.act (.push false), .act (.poll 0), .act (.reschedule 0 1 false), .act .sweep]).rows = []
-    ∧ (dlqTags (run (init 1) [.act (.push false), .act (.poll 0), .act (.reschedule 0 1 false), .act .sweep])) = [0] := by
+-- … and the sweep now moves it to the DLQ
+example : (run (init 1) [.act (.pushTxn 10 false), .act (.poll 0), .act (.reschedule 0 1 false), .act .sweep]).rows = []
+    ∧ dlqTags (run (init 1) [.act (.pushTxn 10 false), .act (.poll 0), .act (.reschedule 0 1 false), .act .sweep]) = [0] := by
   decide
 
 /-! ## replay -/
